@@ -142,6 +142,22 @@ def _gate_matrix(gate, sub):
     return m
 
 
+def _foreign_symbols(circuits, assigns):
+    """symbols that a returned circuit depends on and the time that was passed does not mention (as OBJECTS: a symbol
+    that merely prints like the time's is another symbol) - the circuit's matrix is then not a function of t at all"""
+    known = set()
+    for sub, _t in assigns:
+        if sub:
+            known |= set(sub)
+    out = set()
+    for c in circuits:
+        try:
+            out |= {x for x in c.free_symbols if x not in known}
+        except Exception:
+            pass
+    return sorted(out, key=str)
+
+
 def _circuit_matrix(circuit, n, sub=None, qmap=None):
     """ordered product of the circuit's gates, placed by the reference embedding (qubit q of the circuit is qubit
     qmap[q] of the judged register)"""
@@ -250,6 +266,10 @@ def _post_term(mon, call):
     if n > MAX_JUDGED:
         mon.out_of_domain(name)
         return
+    fs = _foreign_symbols([circuit], assigns)
+    if fs:
+        mon.violation("term-matrix", f"{what}: the circuit depends on {[sympy.srepr(x) for x in fs]}, which the time passed does not mention")
+        return
     for sub, tval in assigns:
         got = _circuit_matrix(circuit, n, sub, qmap)
         exp = _exp_term(cops, complex(c).real, tval, n)
@@ -295,6 +315,11 @@ def _post_sum(mon, call):
     cviews, qmap, n = _compact(views, [circuit])
     if n > MAX_JUDGED:
         mon.out_of_domain(name)
+        return
+    fs = _foreign_symbols([circuit], assigns)
+    if fs:
+        mon.violation("sum-matrix" if steps == 1 else "sum-matrix-steps",
+                      f"{what}: the circuit depends on {[sympy.srepr(x) for x in fs]}, which the time passed does not mention")
         return
     for sub, tval in assigns:
         got = _circuit_matrix(circuit, n, sub, qmap)
@@ -375,6 +400,10 @@ def _post_deriv(mon, call):
     zero[0] = 1
     states = [zero, L.random_state(rng, dim), L.random_state(rng, dim)]
     fsum = sum(abs(f) for f in factors)
+    fs = _foreign_symbols(circuits, assigns)
+    if fs:
+        mon.violation("derivative-mismatch", f"{what}: the circuits depend on {[sympy.srepr(x) for x in fs]}, which the time passed does not mention")
+        return
     for sub, tval in assigns:
         U, dU = _reference_derivative(views, tval, steps, n)
         mats = [_circuit_matrix(c, n, sub, qmap) for c in circuits]
@@ -483,7 +512,11 @@ def rand_time(rng, symbolic=0.25):
     r = rng.random()
     if r < symbolic:
         k = rng.random()
-        t = sympy.Symbol(rng.choice(["t", "time", "tau", "theta", "beta_1"]))
+        nm_ = rng.choice(["t", "time", "tau", "theta", "beta_1"])
+        # the time symbol as an application declares it: plain, with assumptions (a time is real, often positive), or
+        # a Dummy - symbols that PRINT alike and are different objects
+        t = rng.choice([sympy.Symbol(nm_), sympy.Symbol(nm_), sympy.Symbol(nm_, real=True), sympy.Symbol(nm_, positive=True),
+                        sympy.Dummy(nm_)])
         if k < 0.6:
             return t
         if k < 0.8:
